@@ -26,7 +26,12 @@ RULE = (
     "earlier life (items' `pre` for the object that writes, `pre_read` for the object that reads back): before the "
     "observed operation the very same object was written to and/or read from throw-away streams of any storage, the "
     "observed storage or another one, results discarded; the observed write/read is judged exactly as for a fresh "
-    "object, because the property speaks of any register, whatever it was used for before."
+    "object, because the property speaks of any register, whatever it was used for before. In about a third of the "
+    "cases some of the writing objects also HELD ANOTHER RECORD before (items' `was`: the object was built with other "
+    "in-domain data of the same definition, had its earlier life with them, and was then given the observed data by "
+    "r.data[i] = v, r.data[:] = values or r.data = values), or ONE object writes several records of the stream "
+    "(items' `reuse`: the object that wrote the latest record of the same definition is given this item's data in "
+    "one of those three ways and writes again); every record is judged by the data the object holds when it is written."
 )
 ASSUMPTIONS = c01.ASSUMPTIONS + ["binary layouts are contiguous after the identifier (the property's domain)", "identifiers are ASCII literal text without surrounding blanks"]
 TRUSTED = []
@@ -54,9 +59,33 @@ def earlier_life(r, ops):
             pass
 
 
+HOW = {"item": "r.data[i] = v for every i", "slice": "r.data[:] = values", "setter": "r.data = values"}
+
+
+def give(r, vals, how):
+    """the object is given other data through its public `data` list / property"""
+    if how == "item":
+        for i, v in enumerate(vals):
+            r.data[i] = v
+    elif how == "slice":
+        r.data[:] = vals
+    else:
+        r.data = list(vals)
+
+
 def history_text(case):
     out = []
     for i, it in enumerate(case["items"]):
+        if it.get("reuse") and any(p["def"] == it["def"] for p in case["items"][:i]):
+            out.append(f"register {i} is written by the SAME object as the latest earlier register of its definition, given the new data by {HOW[it['reuse']]}")
+        elif it.get("was"):
+            vals = []
+            for v in it["was"]["data"]:
+                try:
+                    vals.append(repr(codec.dec_val(v)))
+                except Exception:
+                    vals.append(str(v))
+            out.append(f"the object that writes register {i} first held [{', '.join(vals)}] (its earlier uses were with those), then was given the data by {HOW[it['was']['how']]}")
         for key, who in (("pre", "writes"), ("pre_read", "reads back")):
             if it.get(key):
                 ops = ", ".join(("written to" if o["op"] == "w" else "read from") + f" a throw-away {o['storage'] or 'default'!s} stream" for o in it[key])
@@ -73,11 +102,25 @@ def run_impl(case):
             classes = fsup.mk_register_classes(defs)
             buf = BytesIO() if st == "BINARY" else StringIO()
             out = []
+            last = {}  # definition -> the object that wrote the latest record of that definition
+            dec = lambda data: [codec.dec_val(v, case.get("np_scalars", False)) for v in data]
             for it in case["items"]:
                 cls = classes[it["def"]]
                 before = buf.tell()
-                r = cls(data=[codec.dec_val(v, case.get("np_scalars", False)) for v in it["data"]])
-                earlier_life(r, it.get("pre"))
+                if it.get("reuse") and it["def"] in last:
+                    # one object, several records: changed through its data and written again
+                    r = last[it["def"]]
+                    give(r, dec(it["data"]), it["reuse"])
+                    earlier_life(r, it.get("pre"))
+                elif it.get("was"):
+                    # the object held another record (and was used with it) before it got this one
+                    r = cls(data=dec(it["was"]["data"]))
+                    earlier_life(r, it.get("pre"))
+                    give(r, dec(it["data"]), it["was"]["how"])
+                else:
+                    r = cls(data=dec(it["data"]))
+                    earlier_life(r, it.get("pre"))
+                last[it["def"]] = r
                 r.write(buf, st)
                 after = buf.tell()
                 w = buf.getvalue()[before:after]
@@ -201,6 +244,10 @@ def features(case, obs):
         f.append("objects_with_earlier_uses:" + ("other_storage" if any(fam(o["storage"]) != fam(case["storage"]) for o in ops) else "same_storage"))
     else:
         f.append("objects_fresh")
+    if any(it.get("was") for it in case["items"]):
+        f.append("object_held_another_record_before")
+    if any(it.get("reuse") and any(p["def"] == it["def"] for p in case["items"][:i]) for i, it in enumerate(case["items"])):
+        f.append("one_object_writes_several_records")
     return f
 
 
@@ -291,6 +338,17 @@ def bin_value(rng, fd):
     return codec.enc_val(datetime(rng.randrange(1970, 2068), rng.randrange(1, 13), rng.randrange(1, 29)))
 
 
+def gen_data(rng, defs, i, mode):
+    if mode == "bin":
+        data = [bin_value(rng, fd) for fd in defs[i]["fields"]]
+    else:
+        data = [c05.canonical_value(rng, fd) for fd in defs[i]["fields"]]
+    if all(v is None for v in data):
+        fd0 = defs[i]["fields"][0]
+        data[0] = {"i": 7} if fd0["k"] == "int" else ({"s": codec.enc_str("q")} if fd0["k"] == "lit" else (codec.enc_val(1.0) if fd0["k"] == "flt" else data[0]))
+    return data
+
+
 def random_case(rng):
     mode = rng.choice(["pos", "pos", "delim", "bin", "bin"])
     ndefs = rng.randrange(1, 4)
@@ -302,14 +360,7 @@ def random_case(rng):
     items = []
     for _ in range(rng.randrange(1, 9)):
         i = rng.randrange(ndefs)
-        if mode == "bin":
-            data = [bin_value(rng, fd) for fd in defs[i]["fields"]]
-        else:
-            data = [c05.canonical_value(rng, fd) for fd in defs[i]["fields"]]
-        if all(v is None for v in data):
-            fd0 = defs[i]["fields"][0]
-            data[0] = {"i": 7} if fd0["k"] == "int" else ({"s": codec.enc_str("q")} if fd0["k"] == "lit" else (codec.enc_val(1.0) if fd0["k"] == "flt" else data[0]))
-        items.append({"def": i, "data": data})
+        items.append({"def": i, "data": gen_data(rng, defs, i, mode)})
     case = {"storage": {"pos": rng.choice(["", "TEXT"]), "delim": "TEXT", "bin": "BINARY"}[mode], "defs": defs, "items": items, "np_scalars": rng.random() < 0.2,
             "file_route": {"linesize": max([d["digits"] for d in defs] + [rng.choice([1, 4, 16, 64, 300])]), "kw": rng.random() < 0.5} if rng.random() < 0.35 else None}
     if rng.random() < 0.5:
@@ -318,6 +369,16 @@ def random_case(rng):
             for key in ("pre", "pre_read"):
                 if rng.random() < 0.5:
                     it[key] = [{"op": rng.choice("wwr"), "storage": rng.choice(["", "TEXT", "BINARY", "BINARY", case["storage"]])} for _ in range(rng.choice([1, 1, 2]))]
+    if rng.random() < 0.35:
+        # objects that held another record before, and one object writing several records
+        for it in items:
+            x = rng.random()
+            if x < 0.35:
+                it["reuse"] = rng.choice(["item", "item", "slice", "setter"])
+            elif x < 0.6:
+                it["was"] = {"data": gen_data(rng, defs, it["def"], mode), "how": rng.choice(["item", "item", "slice", "setter"])}
+                if not any(o["op"] == "w" for o in it.get("pre") or []):
+                    it["pre"] = (it.get("pre") or []) + [{"op": "w", "storage": rng.choice([case["storage"], case["storage"], "", "BINARY"])}]
     return case
 
 
@@ -351,13 +412,14 @@ def cases_of(chunk):
 
 def shrinks(case):
     its = case["items"]
-    if any(it.get("pre") or it.get("pre_read") for it in its):
-        yield {**case, "items": [{k: v for k, v in it.items() if k not in ("pre", "pre_read")} for it in its]}
+    hist = ("pre", "pre_read", "was", "reuse")
+    if any(it.get(k) for it in its for k in hist):
+        yield {**case, "items": [{k: v for k, v in it.items() if k not in hist} for it in its]}
         for i, it in enumerate(its):
-            for key in ("pre", "pre_read"):
+            for key in hist:
                 if it.get(key):
                     yield {**case, "items": its[:i] + [{k: v for k, v in it.items() if k != key}] + its[i + 1 :]}
-                    if len(it[key]) > 1:
+                    if key in ("pre", "pre_read") and len(it[key]) > 1:
                         for k in range(len(it[key])):
                             yield {**case, "items": its[:i] + [dict(it, **{key: it[key][:k] + it[key][k + 1 :]})] + its[i + 1 :]}
     for i in range(len(its)):
@@ -366,5 +428,6 @@ def shrinks(case):
         if len(d["fields"]) > 1 and case["storage"] != "BINARY":
             for k in range(len(d["fields"])):
                 d2 = dict(d, fields=d["fields"][:k] + d["fields"][k + 1 :])
-                its2 = [dict(it, data=it["data"][:k] + it["data"][k + 1 :]) if it["def"] == i else it for it in its]
+                cut = lambda it: dict(it, data=it["data"][:k] + it["data"][k + 1 :], **({"was": dict(it["was"], data=it["was"]["data"][:k] + it["was"]["data"][k + 1 :])} if it.get("was") else {}))
+                its2 = [cut(it) if it["def"] == i else it for it in its]
                 yield {**case, "defs": case["defs"][:i] + [d2] + case["defs"][i + 1 :], "items": its2}
